@@ -304,8 +304,10 @@ Definition ref_local_b (S : tsdoc) (F : list fragdef) (cf : nat) := den S F cf (
 
 Definition rotate {A} (l : list A) : list A := match l with [] => [] | x :: r => r ++ [x] end.
 
+(** lengths 0, 1 (every alternative once) and 2 (one list, of the first two alternatives) *)
 Definition list_alts (xs : list val) : list val :=
-  VList [] :: map (fun x => VList [x]) xs ++ map (fun p => VList [fst p; snd p]) (combine xs (rotate xs)).
+  VList [] :: map (fun x => VList [x]) xs
+  ++ match xs with a :: b :: _ => [VList [a; b]] | [a] => [VList [a; a]] | [] => [] end.
 
 Fixpoint alts_nn (leaf : str -> list val) (t : ty) {struct t} : list val :=
   match t with
